@@ -425,7 +425,7 @@ Section Spec.
     exists n ts l base,
       In (n, ts) (z_nodes z) /\
       n3_owner r = l :: base /\ label_eqb l (b32 (h n)) = true /\ name_eqb base (z_apex z) = true /\
-      n3_types r = ts /\ n3_salt r = salt /\ n3_iter r = iter /\
+      n3_types r = ts /\ n3_alg r = 1 /\ n3_salt r = salt /\ n3_iter r = iter /\
       (exists n', In n' (z_names z) /\ n3_next r = h n') /\
       (forall m, In m (z_names z) -> ~ rfc_covers (h n) (n3_next r) (h m)).
 
